@@ -210,6 +210,10 @@ func (c *client) Execute(
 	}
 	if err := c.sendCBOR(workStartMsg); err != nil {
 		c.logger.Errorf("Step '%s' failed to write start work message: %v", stepData.ID, err)
+		if c.atpVersion > 1 {
+			// Nobody will collect a result for this run; do not keep the read loop waiting for it.
+			c.removeResultChannels(stepData.RunID)
+		}
 		return NewErrorExecutionResult(fmt.Errorf("failed to write work start message (%w)", err))
 	}
 	c.logger.Debugf("Step '%s' started, waiting for response...", stepData.ID)
@@ -562,6 +566,19 @@ func (c *client) prepareResultChannels(
 		}()
 	}
 	return nil
+}
+
+// removeResultChannels undoes prepareResultChannels for an execution that ends without collecting
+// a result: it removes the result entry and closes and removes the emitted signal channel.
+func (c *client) removeResultChannels(runID string) {
+	c.mutex.Lock()
+	defer c.mutex.Unlock()
+	delete(c.runningStepResultEntries, runID)
+	signalChannel, found := c.runningStepEmittedSignalChannels[runID]
+	if found {
+		delete(c.runningStepEmittedSignalChannels, runID)
+		close(signalChannel)
+	}
 }
 
 // getResultV2 communicates with the RuntimeMessage loop to get the ExecutionResult.
